@@ -45,6 +45,14 @@ theorem mlog_bounded (now f : Nat) (base new : Meta) (k : Int) (hk : new.prevMax
     ((stamp now (some f) base new).mlog <:+ (new.mlog ++ [(base.lastUpdated, f)]) ∨
       (stamp now (some f) base new).mlog = new.mlog) := mlog_bounded' now f base new k hk h1 hlen
 
+
+/-- **mlog_trimmed** — also after the bound was lowered under a longer log: a commit that appends an entry leaves at most `k`
+entries (the newest ones), whatever the length before. -/
+theorem mlog_trimmed (now f : Nat) (base new : Meta) (k : Int) (hk : new.prevMax = some k) (h1 : 1 ≤ k)
+    (hne : ∀ e, new.mlog.getLast? = some e → (e.2 == f) = false) :
+    ((stamp now (some f) base new).mlog.length : Int) ≤ k ∧
+    (stamp now (some f) base new).mlog <:+ (new.mlog ++ [(base.lastUpdated, f)]) := mlog_trimmed'' now f base new k hk h1 hne
+
 /-- **rewrite_preserves_origin** — entries carried through a manifest rewrite keep their adding snapshot and
 sequence number; **delete_exact** — exactly the named files disappear. -/
 theorem rewrite_preserves_origin (es : List Entry) (deleted : List Nat) (same : Bool) (out : List Entry)
